@@ -2,7 +2,8 @@
    Only statements, each closed by [exact <lemma>] with Print Assumptions beneath. *)
 From Coq Require Import NArith List Bool String.
 From RC Require Import lib.Result model.Flags model.Enums proofs.Flags_proofs
-  gen.GenFlags gen.GenEnums proofs.C12_proofs.
+  gen.GenFlags gen.GenEnums proofs.C12_proofs
+  lib.Bytes model.Scalars gen.GenScalars proofs.C12_scalars.
 Local Open Scope N_scope.
 
 Theorem C12_action_flags_number_to_rich_and_back :
@@ -76,3 +77,33 @@ Theorem C12_every_enum_is_exact :
     (forall i1 i2 m, In (i1, m) E -> In (i2, m) E -> i1 = i2).
 Proof. exact all_enums_exact. Qed.
 Print Assumptions C12_every_enum_is_exact.
+
+(* ---- hit points: Decimal(raw) / Decimal(256), as an exact count of 10^-8 units --------------------------- *)
+Theorem C12_hit_points_number_to_rich_and_back : forall raw, hp_encode (hp_decode raw) = raw.
+Proof. exact hp_number_to_rich_and_back. Qed.
+Print Assumptions C12_hit_points_number_to_rich_and_back.
+
+Theorem C12_hit_points_rich_to_number_and_back :
+  forall d, (hp_scale / HP_DIVISOR | d) -> hp_decode (hp_encode d) = d.
+Proof. exact hp_rich_to_number_and_back. Qed.
+Print Assumptions C12_hit_points_rich_to_number_and_back.
+
+Theorem C12_hit_points_quotient_is_exact_and_within_decimal_precision :
+  hp_scale mod HP_DIVISOR = 0 /\ forall raw, raw < 2 ^ 32 -> hp_decode raw < 10 ^ 28.
+Proof. split; [exact (proj1 hp_quotient_exact) | exact hp_within_decimal_precision]. Qed.
+Print Assumptions C12_hit_points_quotient_is_exact_and_within_decimal_precision.
+
+(* ---- AI scripts: every u32 whose four bytes are valid UTF-8 ------------------------------------------- *)
+Theorem C12_ai_script_number_to_rich_and_back : forall n a, ai_decode n = Ok a -> ai_encode a = Ok n.
+Proof. exact ai_number_to_rich_and_back. Qed.
+Print Assumptions C12_ai_script_number_to_rich_and_back.
+
+Theorem C12_ai_script_member_iff_exact_tag :
+  forall n i, ai_decode n = Ok (AiKnown i) -> nth_error gen_ai_tags i = Some (le_encode 4 n).
+Proof. exact ai_known_iff_exact_tag. Qed.
+Print Assumptions C12_ai_script_member_iff_exact_tag.
+
+Theorem C12_ai_script_distinct_numbers_distinct_values :
+  forall n m a, ai_decode n = Ok a -> ai_decode m = Ok a -> n = m.
+Proof. exact ai_decode_injective. Qed.
+Print Assumptions C12_ai_script_distinct_numbers_distinct_values.
